@@ -35,6 +35,8 @@ func (rw *HeaderRewriter) Rewrite(req *http.Request) {
 		utils.RemoveHeaders(req.Header, XHeaders...)
 	}
 
+	delistForwardingHeaders(req.Header)
+
 	if clientIP, _, err := net.SplitHostPort(req.RemoteAddr); err == nil {
 		clientIP = ipv6fix(clientIP)
 
@@ -83,4 +85,33 @@ func forwardedPort(req *http.Request) string {
 	}
 
 	return "80"
+}
+
+// delistForwardingHeaders handles forwarding headers that the client named in its Connection header.
+// They are hop-by-hop on the client's side of the proxy, so what the client sent is dropped; and they are
+// taken off the list, otherwise the reverse proxy, which strips the listed headers after the rewrite,
+// would also strip the values this proxy sets. X-Forwarded-For is left to the reverse proxy itself.
+func delistForwardingHeaders(h http.Header) {
+	for i, field := range h[Connection] {
+		tokens := strings.Split(field, ",")
+		kept := tokens[:0]
+		for _, token := range tokens {
+			name := http.CanonicalHeaderKey(strings.TrimSpace(token))
+			if name != XForwardedFor && isForwardingHeader(name) {
+				h.Del(name)
+				continue
+			}
+			kept = append(kept, token)
+		}
+		h[Connection][i] = strings.Join(kept, ",")
+	}
+}
+
+func isForwardingHeader(name string) bool {
+	for _, x := range XHeaders {
+		if x == name {
+			return true
+		}
+	}
+	return false
 }
